@@ -55,16 +55,19 @@ func init() {
 	})
 	register(&Property{
 		ID: "C34",
-		Explanation: "Decides ordering and effects of the repair commands: (salvage-order) RepairPacks removes exactly the user-named packs, only behind the success edges of the re-upload session (WithBlobUploader) and of rewriteIndexFiles, and the index rewrite only after the re-upload succeeded; reuploadBlobsFromPack stores with storeDuplicate=true, returns the save error and compares the uploaded id with the expected blob id; (second-salvage-pass) after the pass over the index entries of a pack the header-based pass is left out only if the header could not be read or slices.Equal finds both sorted lists equal in every field of every entry (added after a seeded change that compared only the blob handles, so that a wrong length in the index cost an intact blob); (repair-node-effects) the node rewriter of repair snapshots stores only to Node.Content and Node.Size and only behind node.Type == NodeTypeFile, so files whose data is fully available keep every other field; (replace-order, see C26) the repaired snapshot is saved before the original is removed. Not decided: that every readable blob is actually found in a damaged pack (depends on the damage), and that the repaired snapshots pass check.",
+		Explanation: "Decides ordering and effects of the repair commands: (salvage-order) RepairPacks removes exactly the user-named packs, only behind the success edges of the re-upload session (WithBlobUploader) and of rewriteIndexFiles, and the index rewrite only after the re-upload succeeded; reuploadBlobsFromPack stores with storeDuplicate=true, returns the save error and compares the uploaded id with the expected blob id; (second-salvage-pass) after the pass over the index entries of a pack the header-based pass is left out only if the header could not be read or slices.Equal finds both sorted lists equal in every field of every entry (added after a seeded change that compared only the blob handles, so that a wrong length in the index cost an intact blob); (repair-node-effects) the node rewriter of repair snapshots stores only to Node.Content and Node.Size and only behind node.Type == NodeTypeFile, so files whose data is fully available keep every other field; (replace-order, see C26) the repaired snapshot is saved before the original is removed; (repaired-content-fresh) the blob list repair snapshots writes into a file node starts from a fresh, non-nil allocation (followed through append and the loop's phi), never from the node's own list, so a legacy node with a null blob list — which check rejects — comes out with an empty list (added after a seeded change that filtered in place). Not decided: that every readable blob is actually found in a damaged pack (depends on the damage), and that the repaired snapshots pass check.",
 		Assumptions: commonAssumptions,
 		Technique:   "static analysis: CFG edge-cut ordering + field-store effect enumeration in the rewrite callback (go/ssa)",
 		Run: func(c *eng.Ctx) {
 			ruleSalvageOrder(c)
 			ruleSecondSalvagePass(c)
 			ruleRepairSnapshotsEffects(c)
+			ruleRepairedContentFresh(c)
 			rulePackRemovers(c)
 		},
 		Controls: []Control{
+			{Name: "content-filtered-in-place", File: "cmd/restic/cmd_repair_snapshots.go",
+				Old: "			var newContent = restic.IDs{}\n", New: "			newContent := node.Content[:0:0]\n", Rule: "repaired-content-fresh"},
 			{Name: "header-pass-only-when-entry-count-differs", File: "internal/repository/repair_pack.go",
 				Old: "			if packBlobs != nil && !slices.Equal(indexBlobs, packBlobs) {", New: "			if packBlobs != nil && len(indexBlobs) != len(packBlobs) && !slices.Equal(indexBlobs, packBlobs) {", Rule: "second-salvage-pass"},
 			{Name: "remove-damaged-packs-before-reupload", File: "internal/repository/repair_pack.go",
@@ -96,12 +99,13 @@ func init() {
 	})
 	register(&Property{
 		ID: "C09",
-		Explanation: "Decides strong necessary conditions that hold for every crash prefix and option combination of prune: (execute-order) in PrunePlan.Execute the repacked packs enter removePacks only through Merge(repackPacks) behind the success edge of WithBlobUploader(CopyBlobs…), removePacks is deleted only on paths that crossed rewriteIndexFiles' success edge, the unsafe-recovery index deletion's success edge, or the zero-length test of ignorePacks taken after ignorePacks ⊇ removePacks was established (the infeasible-path trap of plain dominance), and only after keepBlobs.Len()==0 following a repack; the rewrite excludes exactly ignorePacks; (rewrite-order) MasterIndex.Rewrite removes obsolete index files only after wg.Wait()==nil for the savers, SaveFallback returns the save error; (used-blobs-errors) snapshot/tree load errors and item.Error abort getUsedBlobs/FindUsedBlobs and propagate to PlanPrune; (missing-abort) packInfoFromIndex succeeds only if no used blob is missing from the index and decidePackAction runs only after both succeeded; (ignored-errors-allowlist) the only discarded errors in Execute are the two pack deletions; (pack-removers) all removal call sites of the program are enumerated: PackFile is removed only by Execute and RepairPacks, other sites forward a parameter, no direct backend removal of a pack exists, and compile-fail witnesses show that code outside package repository cannot pass PackFile/IndexFile/KeyFile/LockFile/ConfigFile to Save/RemoveUnpacked. (kept-pack-predicate) PlanPrune drops a blob from keepBlobs ('another copy is in a kept pack') only for a pack that is in none of PrunePlan's pack-ID sets — removePacks, repackPacks, ignorePacks, enumerated from the struct — because members of every one of them do not survive the prune; this rule was written for the genuine defect found in this place (packs missing from the repository counted as kept, so the last surviving copy of a duplicated blob was neither carried over nor kept), now fixed. Not decided: correctness of duplicate selection and of the remaining keepBlobs arithmetic; bit-identical restorability itself.",
+		Explanation: "Decides strong necessary conditions that hold for every crash prefix and option combination of prune: (execute-order) in PrunePlan.Execute the repacked packs enter removePacks only through Merge(repackPacks) behind the success edge of WithBlobUploader(CopyBlobs…), removePacks is deleted only on paths that crossed rewriteIndexFiles' success edge, the unsafe-recovery index deletion's success edge, or the zero-length test of ignorePacks taken after ignorePacks ⊇ removePacks was established (the infeasible-path trap of plain dominance), and only after keepBlobs.Len()==0 following a repack; the rewrite excludes exactly ignorePacks; (ignore-set-covers-deletions) whatever Execute adds to removePacks (the repacked packs) is carried into ignorePacks — by the aliasing assignment or by Merge — on every path from that addition to rewriteIndexFiles/SaveFallback, so no pack is deleted while the new index still names it (added after a seeded change that computed ignorePacks before the repack: with a missing unneeded pack in the index the repacked packs stayed in the index and were deleted); (rewrite-order) MasterIndex.Rewrite removes obsolete index files only after wg.Wait()==nil for the savers, SaveFallback returns the save error; (used-blobs-errors) snapshot/tree load errors and item.Error abort getUsedBlobs/FindUsedBlobs and propagate to PlanPrune; (missing-abort) packInfoFromIndex succeeds only if no used blob is missing from the index and decidePackAction runs only after both succeeded; (ignored-errors-allowlist) the only discarded errors in Execute are the two pack deletions; (pack-removers) all removal call sites of the program are enumerated: PackFile is removed only by Execute and RepairPacks, other sites forward a parameter, no direct backend removal of a pack exists, and compile-fail witnesses show that code outside package repository cannot pass PackFile/IndexFile/KeyFile/LockFile/ConfigFile to Save/RemoveUnpacked. (kept-pack-predicate) PlanPrune drops a blob from keepBlobs ('another copy is in a kept pack') only for a pack that is in none of PrunePlan's pack-ID sets — removePacks, repackPacks, ignorePacks, enumerated from the struct — because members of every one of them do not survive the prune; this rule was written for the genuine defect found in this place (packs missing from the repository counted as kept, so the last surviving copy of a duplicated blob was neither carried over nor kept), now fixed. Not decided: correctness of duplicate selection and of the remaining keepBlobs arithmetic; bit-identical restorability itself.",
 		Assumptions: append([]string{"errgroup.Wait returns the first error of its goroutines"}, commonAssumptions...),
 		Technique:   "static analysis: disjunctive CFG edge cuts with side obligations, call-site enumeration, error-propagation discipline, compile-fail type witnesses (go/ssa, go/types)",
 		AllConfigs:  true,
 		Run: func(c *eng.Ctx) {
 			ruleExecuteOrder(c)
+			ruleIgnoreSetCoversDeletions(c)
 			ruleRewriteOrder(c)
 			ruleRewriteDedupSet(c)
 			ruleKeptIndexHasNoExcludedPack(c)
@@ -112,6 +116,8 @@ func init() {
 			ruleKeptPackPredicate(c)
 		},
 		Controls: []Control{
+			{Name: "repacked-packs-not-merged-into-ignore-set", File: "internal/repository/prune.go",
+				Old: "	if len(plan.ignorePacks) == 0 {\n		plan.ignorePacks = plan.removePacks\n	} else {\n		plan.ignorePacks.Merge(plan.removePacks)\n	}\n", New: "	if len(plan.ignorePacks) == 0 {\n		plan.ignorePacks = plan.removePacks\n	}\n", Rule: "ignore-set-covers-deletions"},
 			{Name: "repacked-packs-count-as-kept", File: "internal/repository/prune.go",
 				Old: "			if plan.removePacks.Has(packID) || plan.repackPacks.Has(packID) || plan.ignorePacks.Has(packID) {", New: "			if plan.removePacks.Has(packID) || plan.ignorePacks.Has(packID) {", Rule: "kept-pack-predicate"},
 			{Name: "missing-packs-count-as-kept", File: "internal/repository/prune.go",
